@@ -19,10 +19,10 @@ open NmlVerif
 def cands (T : Table) (parent child : Obj) : List MemberSpec := targets (T.getMembers parent.cls) child.cls
 
 /-- the outcome once member `m` was selected -/
-theorem add_eq_of_select (T : Table) (valid : Obj → Bool) (g : Gate) (parent child : Obj) (hint : Option Nat)
+theorem add_eq_of_select (T : Table) (valid strOk : Obj → Bool) (g : Gate) (parent child : Obj) (hint : Option Nat)
     (force : Bool) (m : MemberSpec) (hs : select true (cands T parent child) hint = .ok (some m)) :
-    add T valid g parent child hint force =
-      match place parent child m force with
+    add T valid strOk g parent child hint force =
+      match place (strOk child) parent child m force with
       | .error e => ⟨parent, none, .error e⟩
       | .ok (p', w) => ⟨p', w, if g.on && !valid p' then .error .invalid else .ok child⟩ := by
   unfold cands at hs
@@ -30,60 +30,60 @@ theorem add_eq_of_select (T : Table) (valid : Obj → Bool) (g : Gate) (parent c
   rfl
 
 /-- the outcome once member `m` was selected and `__add` can store -/
-theorem add_stores (T : Table) (valid : Obj → Bool) (g : Gate) (parent child : Obj) (hint : Option Nat)
+theorem add_stores (T : Table) (valid strOk : Obj → Bool) (g : Gate) (parent child : Obj) (hint : Option Nat)
     (force : Bool) (m : MemberSpec) (hs : select true (cands T parent child) hint = .ok (some m))
     (hst : Storable parent child m force) :
-    StoredIn parent (add T valid g parent child hint force).parent m child ∧
-    (add T valid g parent child hint force).warn = none := by
-  rw [add_eq_of_select T valid g parent child hint force m hs]
-  obtain ⟨p', hp, hsi⟩ := place_storable hst
+    StoredIn parent (add T valid strOk g parent child hint force).parent m child ∧
+    (add T valid strOk g parent child hint force).warn = none := by
+  rw [add_eq_of_select T valid strOk g parent child hint force m hs]
+  obtain ⟨p', hp, hsi⟩ := place_storable (strOk child) hst
   rw [hp]
   exact ⟨hsi, rfl⟩
 
 /-- **Unique target.** Exactly one member is declared for the child's type and `__add` can store (the slot is
     free, or `force`): afterwards the child is in that member — appended / assigned — and the parent is otherwise
     the same object: no other attribute changed. (Holds whether or not the validation that follows raises.) -/
-theorem c10_unique_stores (T : Table) (valid : Obj → Bool) (g : Gate) (parent child : Obj) (hint : Option Nat)
+theorem c10_unique_stores (T : Table) (valid strOk : Obj → Bool) (g : Gate) (parent child : Obj) (hint : Option Nat)
     (force : Bool) (m : MemberSpec) (hu : cands T parent child = [m]) (hst : Storable parent child m force) :
-    StoredIn parent (add T valid g parent child hint force).parent m child :=
-  (add_stores T valid g parent child hint force m (by rw [hu]; rfl) hst).1
+    StoredIn parent (add T valid strOk g parent child hint force).parent m child :=
+  (add_stores T valid strOk g parent child hint force m (by rw [hu]; rfl) hst).1
 
 /-- **Hint selects among several.** With two or more candidates the one named by the hint receives the child
     (member names are distinct along the class chain: `c10_gen_names_nodup` for the shipped table). -/
-theorem c10_hint_selects (T : Table) (valid : Obj → Bool) (g : Gate) (parent child : Obj) (h : Nat)
+theorem c10_hint_selects (T : Table) (valid strOk : Obj → Bool) (g : Gate) (parent child : Obj) (h : Nat)
     (force : Bool) (m : MemberSpec) (hmany : 2 ≤ (cands T parent child).length)
     (hnd : (T.memberNames parent.cls).Nodup) (hm : m ∈ cands T parent child) (hname : m.name = h)
     (hst : Storable parent child m force) :
-    StoredIn parent (add T valid g parent child (some h) force).parent m child := by
+    StoredIn parent (add T valid strOk g parent child (some h) force).parent m child := by
   have hf := find?_of_nodup_names h (targets_names_nodup child.cls hnd) hm hname
-  exact (add_stores T valid g parent child (some h) force m (select_many_hit true hmany h m hf) hst).1
+  exact (add_stores T valid strOk g parent child (some h) force m (select_many_hit true hmany h m hf) hst).1
 
 /-- the same without assuming distinct names: the FIRST candidate carrying the hinted name is used -/
-theorem c10_hint_selects_first (T : Table) (valid : Obj → Bool) (g : Gate) (parent child : Obj) (h : Nat)
+theorem c10_hint_selects_first (T : Table) (valid strOk : Obj → Bool) (g : Gate) (parent child : Obj) (h : Nat)
     (force : Bool) (m : MemberSpec) (hmany : 2 ≤ (cands T parent child).length)
     (hf : (cands T parent child).find? (fun x => x.name == h) = some m) (hst : Storable parent child m force) :
-    StoredIn parent (add T valid g parent child (some h) force).parent m child :=
-  (add_stores T valid g parent child (some h) force m (select_many_hit true hmany h m hf) hst).1
+    StoredIn parent (add T valid strOk g parent child (some h) force).parent m child :=
+  (add_stores T valid strOk g parent child (some h) force m (select_many_hit true hmany h m hf) hst).1
 
 /-- **No member for the child's type**: raises, parent unchanged. -/
-theorem c10_no_target_raises (T : Table) (valid : Obj → Bool) (g : Gate) (parent child : Obj)
+theorem c10_no_target_raises (T : Table) (valid strOk : Obj → Bool) (g : Gate) (parent child : Obj)
     (hint : Option Nat) (force : Bool) (h0 : cands T parent child = []) :
-    add T valid g parent child hint force = ⟨parent, none, .error .noMember⟩ := by
+    add T valid strOk g parent child hint force = ⟨parent, none, .error .noMember⟩ := by
   unfold cands at h0
   simp only [add, addWith, addCore, h0, select]
 
 /-- **Several candidates and no hint**: raises, parent unchanged. -/
-theorem c10_ambiguous_raises (T : Table) (valid : Obj → Bool) (g : Gate) (parent child : Obj) (force : Bool)
+theorem c10_ambiguous_raises (T : Table) (valid strOk : Obj → Bool) (g : Gate) (parent child : Obj) (force : Bool)
     (hmany : 2 ≤ (cands T parent child).length) :
-    add T valid g parent child none force = ⟨parent, none, .error .ambiguous⟩ := by
+    add T valid strOk g parent child none force = ⟨parent, none, .error .ambiguous⟩ := by
   unfold cands at hmany
   simp only [add, addWith, addCore, select_many_none true hmany]
 
 /-- **A hint that names none of the candidates**: raises, parent unchanged (the repaired behaviour;
     before `fixes/C10-add-bad-hint-raises.patch` the call returned the child and stored nothing). -/
-theorem c10_bad_hint_raises (T : Table) (valid : Obj → Bool) (g : Gate) (parent child : Obj) (h : Nat)
+theorem c10_bad_hint_raises (T : Table) (valid strOk : Obj → Bool) (g : Gate) (parent child : Obj) (h : Nat)
     (force : Bool) (hmany : 2 ≤ (cands T parent child).length) (hmiss : ∀ m ∈ cands T parent child, m.name ≠ h) :
-    add T valid g parent child (some h) force = ⟨parent, none, .error .badHint⟩ := by
+    add T valid strOk g parent child (some h) force = ⟨parent, none, .error .badHint⟩ := by
   unfold cands at hmany hmiss
   simp only [add, addWith, addCore, select_many_miss true hmany h hmiss, ↓reduceIte]
 
@@ -91,25 +91,48 @@ theorem c10_bad_hint_raises (T : Table) (valid : Obj → Bool) (g : Gate) (paren
 def Selected (T : Table) (parent child : Obj) (hint : Option Nat) (m : MemberSpec) : Prop :=
   select true (cands T parent child) hint = .ok (some m)
 
-/-- **Duplicate / occupied ⇒ refused with a warning unless forced.** The selected member already holds an equal
-    child (container) or any truthy value (single-valued) and `force` is off: the parent is unchanged, the warning
-    is issued, and the call returns the child — unless the validation of the (unchanged) parent raises. -/
-theorem c10_taken_refused (T : Table) (valid : Obj → Bool) (g : Gate) (parent child : Obj) (hint : Option Nat)
-    (m : MemberSpec) (hs : Selected T parent child hint m) (ht : Taken parent child m) :
-    (add T valid g parent child hint false).parent = parent ∧
-    (add T valid g parent child hint false).warn = some (warnOf m) ∧
-    ((add T valid g parent child hint false).result = .ok child ∨
-     (g.on = true ∧ valid parent = false ∧ (add T valid g parent child hint false).result = .error .invalid)) := by
-  rw [add_eq_of_select T valid g parent child hint false m hs, place_taken ht]
+/-- FULL statement of **duplicate / occupied ⇒ refused with a warning unless forced**: the selected member
+    already holds an equal child (container) or any truthy value (single-valued) and `force` is off ⇒ the parent is
+    unchanged, the warning is issued, and the call returns the child — unless the validation of the (unchanged)
+    parent raises. See `c10_taken_refused_partial` / `_witness` (known finding `C10:dup-warning-raises`). -/
+def c10_taken_refused_full : Prop :=
+  ∀ (T : Table) (valid strOk : Obj → Bool) (g : Gate) (parent child : Obj) (hint : Option Nat) (m : MemberSpec),
+    Selected T parent child hint m → Taken parent child m →
+    (add T valid strOk g parent child hint false).parent = parent ∧
+    (add T valid strOk g parent child hint false).warn = some (warnOf m) ∧
+    ((add T valid strOk g parent child hint false).result = .ok child ∨
+     (g.on = true ∧ valid parent = false ∧
+      (add T valid strOk g parent child hint false).result = .error .invalid))
+
+/-- true whenever the duplicate warning can be formatted: for a container member `str(child)` must not raise
+    (it does for incomplete components of 15 classes whose `__str__` helper dereferences unset attributes);
+    single-valued members are unconditional -/
+theorem c10_taken_refused_partial (T : Table) (valid strOk : Obj → Bool) (g : Gate) (parent child : Obj)
+    (hint : Option Nat) (m : MemberSpec) (hs : Selected T parent child hint m) (ht : Taken parent child m)
+    (hstr : m.container = true → strOk child = true) :
+    (add T valid strOk g parent child hint false).parent = parent ∧
+    (add T valid strOk g parent child hint false).warn = some (warnOf m) ∧
+    ((add T valid strOk g parent child hint false).result = .ok child ∨
+     (g.on = true ∧ valid parent = false ∧
+      (add T valid strOk g parent child hint false).result = .error .invalid)) := by
+  rw [add_eq_of_select T valid strOk g parent child hint false m hs, place_taken (strOk child) ht hstr]
   refine ⟨rfl, rfl, ?_⟩
   cases hg : g.on <;> cases hv : valid parent <;> simp [hv]
 
+/-- when `str(child)` raises, the duplicate is still not stored — the parent is unchanged — but the call raises
+    instead of warning and returning the child -/
+theorem c10_taken_str_raises (T : Table) (valid strOk : Obj → Bool) (g : Gate) (parent child : Obj)
+    (hint : Option Nat) (m : MemberSpec) (hs : Selected T parent child hint m) (ht : Taken parent child m)
+    (hc : m.container = true) (hstr : strOk child = false) :
+    add T valid strOk g parent child hint false = ⟨parent, none, .error .strFails⟩ := by
+  rw [add_eq_of_select T valid strOk g parent child hint false m hs, hstr, place_taken_strFails ht hc]
+
 /-- **… unless forced**: with `force` the child is stored although the member is taken
     (appended a second time / the old value overwritten), without warning. -/
-theorem c10_taken_forced (T : Table) (valid : Obj → Bool) (g : Gate) (parent child : Obj) (hint : Option Nat)
+theorem c10_taken_forced (T : Table) (valid strOk : Obj → Bool) (g : Gate) (parent child : Obj) (hint : Option Nat)
     (m : MemberSpec) (hs : Selected T parent child hint m) (ht : Taken parent child m) :
-    StoredIn parent (add T valid g parent child hint true).parent m child ∧
-    (add T valid g parent child hint true).warn = none := by
+    StoredIn parent (add T valid strOk g parent child hint true).parent m child ∧
+    (add T valid strOk g parent child hint true).warn = none := by
   have hst : Storable parent child m true := by
     unfold Storable; unfold Taken at ht
     cases hc : m.container with
@@ -118,12 +141,12 @@ theorem c10_taken_forced (T : Table) (valid : Obj → Bool) (g : Gate) (parent c
       obtain ⟨l, hl, _⟩ := ht
       exact ⟨l, hl, Or.inl trivial⟩
     | false => simp
-  exact add_stores T valid g parent child hint true m hs hst
+  exact add_stores T valid strOk g parent child hint true m hs hst
 
 /-- everything a call can do, in one statement (the other theorems are read off from it) -/
-theorem add_cases (T : Table) (valid : Obj → Bool) (g : Gate) (parent child : Obj) (hint : Option Nat)
+theorem add_cases (T : Table) (valid strOk : Obj → Bool) (g : Gate) (parent child : Obj) (hint : Option Nat)
     (force : Bool) :
-    let r := add T valid g parent child hint force
+    let r := add T valid strOk g parent child hint force
     -- (1) no unique member can be determined
     (r.parent = parent ∧ r.warn = none ∧
         (r.result = .error .noMember ∨ r.result = .error .ambiguous ∨ r.result = .error .badHint))
@@ -131,10 +154,14 @@ theorem add_cases (T : Table) (valid : Obj → Bool) (g : Gate) (parent child : 
     ∨ (∃ m ∈ cands T parent child, Selected T parent child hint m ∧ Storable parent child m force ∧
         StoredIn parent r.parent m child ∧ r.warn = none ∧
         r.result = if g.on && !valid r.parent then .error .invalid else .ok child)
-    -- (3) refused
+    -- (3) refused with the warning
     ∨ (∃ m ∈ cands T parent child, Selected T parent child hint m ∧ Taken parent child m ∧ force = false ∧
         r.parent = parent ∧ r.warn = some (warnOf m) ∧
         r.result = if g.on && !valid parent then .error .invalid else .ok child)
+    -- (3') refused, but formatting the duplicate warning raised
+    ∨ (∃ m ∈ cands T parent child, Selected T parent child hint m ∧ Taken parent child m ∧ force = false ∧
+        m.container = true ∧ strOk child = false ∧ r.parent = parent ∧ r.warn = none ∧
+        r.result = .error .strFails)
     -- (4) malformed parent: the selected member has no attribute / a container that is not a list
     ∨ (∃ m ∈ cands T parent child, Selected T parent child hint m ∧ ¬ Storable parent child m force ∧
         ¬ Taken parent child m ∧ r.parent = parent ∧ r.warn = none ∧
@@ -167,8 +194,9 @@ theorem add_cases (T : Table) (valid : Obj → Bool) (g : Gate) (parent child : 
     | none => exact absurd hs select_strict_ne_none
     | some m =>
       have hmem := select_ok_mem hs
-      have hr : r = _ := add_eq_of_select T valid g parent child hint force m hs
-      rcases place_cases parent child m force with ⟨p', hp, hst, hsi⟩ | ⟨hp, hf, ht⟩ | ⟨hp, hns, hnt⟩
+      have hr : r = _ := add_eq_of_select T valid strOk g parent child hint force m hs
+      rcases place_cases (strOk child) parent child m force with
+        ⟨p', hp, hst, hsi⟩ | ⟨ht, hf, ⟨hp, _⟩ | ⟨hp, hc, hso⟩⟩ | ⟨hp, hns, hnt⟩
       · right; left
         rw [hp] at hr
         rw [hr]
@@ -177,7 +205,11 @@ theorem add_cases (T : Table) (valid : Obj → Bool) (g : Gate) (parent child : 
         rw [hp] at hr
         rw [hr]
         exact ⟨m, hmem, hs, ht, hf, rfl, rfl, rfl⟩
-      · right; right; right
+      · right; right; right; left
+        rw [hp] at hr
+        rw [hr]
+        exact ⟨m, hmem, hs, ht, hf, hc, hso, rfl, rfl, rfl⟩
+      · right; right; right; right
         rcases hp with hp | hp <;> rw [hp] at hr <;> rw [hr]
         · exact ⟨m, hmem, hs, hns, hnt, rfl, rfl, Or.inl rfl⟩
         · exact ⟨m, hmem, hs, hns, hnt, rfl, rfl, Or.inr rfl⟩
@@ -185,18 +217,18 @@ theorem add_cases (T : Table) (valid : Obj → Bool) (g : Gate) (parent child : 
 /-- **Returns the stored object.** Whenever the call returns, it returns the very object it was given; without a
     warning that object now sits in a candidate member (and nothing else changed), with a warning nothing was
     stored, `force` was off and the member was taken. -/
-theorem c10_returns_stored (T : Table) (valid : Obj → Bool) (g : Gate) (parent child : Obj) (hint : Option Nat)
-    (force : Bool) (o : Obj) (hr : (add T valid g parent child hint force).result = .ok o) :
+theorem c10_returns_stored (T : Table) (valid strOk : Obj → Bool) (g : Gate) (parent child : Obj) (hint : Option Nat)
+    (force : Bool) (o : Obj) (hr : (add T valid strOk g parent child hint force).result = .ok o) :
     o = child ∧
-    ((add T valid g parent child hint force).warn = none →
-        ∃ m ∈ cands T parent child, StoredIn parent (add T valid g parent child hint force).parent m child) ∧
-    (∀ x, (add T valid g parent child hint force).warn = some x →
-        (add T valid g parent child hint force).parent = parent ∧ force = false ∧
+    ((add T valid strOk g parent child hint force).warn = none →
+        ∃ m ∈ cands T parent child, StoredIn parent (add T valid strOk g parent child hint force).parent m child) ∧
+    (∀ x, (add T valid strOk g parent child hint force).warn = some x →
+        (add T valid strOk g parent child hint force).parent = parent ∧ force = false ∧
         ∃ m ∈ cands T parent child, Taken parent child m ∧ x = warnOf m) := by
-  have hc := add_cases T valid g parent child hint force
+  have hc := add_cases T valid strOk g parent child hint force
   simp only at hc
   rcases hc with ⟨_, _, h | h | h⟩ | ⟨m, hm, _, _, hsi, hw, hres⟩ | ⟨m, hm, _, ht, hf, hp, hw, hres⟩ |
-      ⟨m, _, _, _, _, _, _, h | h⟩
+      ⟨m, _, _, _, _, _, _, _, _, h⟩ | ⟨m, _, _, _, _, _, _, h | h⟩
   · rw [h] at hr; cases hr
   · rw [h] at hr; cases hr
   · rw [h] at hr; cases hr
@@ -215,18 +247,19 @@ theorem c10_returns_stored (T : Table) (valid : Obj → Bool) (g : Gate) (parent
       exact ⟨hp, hf, m, hm, ht, hx.symm⟩
   · rw [h] at hr; cases hr
   · rw [h] at hr; cases hr
+  · rw [h] at hr; cases hr
 
 /-- **Raises ⇒ unchanged.** Every exception except the `ValueError` of the validation that FOLLOWS a placement
     leaves the parent exactly as it was; that `ValueError` occurs only with both switches on and reports that the
     parent as it now is does not validate. -/
-theorem c10_raise_unchanged (T : Table) (valid : Obj → Bool) (g : Gate) (parent child : Obj) (hint : Option Nat)
-    (force : Bool) (e : Err) (hr : (add T valid g parent child hint force).result = .error e) :
-    (e ≠ .invalid → (add T valid g parent child hint force).parent = parent) ∧
-    (e = .invalid → g.on = true ∧ valid (add T valid g parent child hint force).parent = false) := by
-  have hc := add_cases T valid g parent child hint force
+theorem c10_raise_unchanged (T : Table) (valid strOk : Obj → Bool) (g : Gate) (parent child : Obj) (hint : Option Nat)
+    (force : Bool) (e : Err) (hr : (add T valid strOk g parent child hint force).result = .error e) :
+    (e ≠ .invalid → (add T valid strOk g parent child hint force).parent = parent) ∧
+    (e = .invalid → g.on = true ∧ valid (add T valid strOk g parent child hint force).parent = false) := by
+  have hc := add_cases T valid strOk g parent child hint force
   simp only at hc
   rcases hc with ⟨hp, _, h | h | h⟩ | ⟨m, _, _, _, _, _, hres⟩ | ⟨m, _, _, _, _, hp, _, hres⟩ |
-      ⟨m, _, _, _, _, hp, _, h | h⟩
+      ⟨m, _, _, _, _, _, _, hp, _, h⟩ | ⟨m, _, _, _, _, hp, _, h | h⟩
   · rw [h] at hr; cases hr; exact ⟨fun _ => hp, fun h => by cases h⟩
   · rw [h] at hr; cases hr; exact ⟨fun _ => hp, fun h => by cases h⟩
   · rw [h] at hr; cases hr; exact ⟨fun _ => hp, fun h => by cases h⟩
@@ -248,31 +281,34 @@ theorem c10_raise_unchanged (T : Table) (valid : Obj → Bool) (g : Gate) (paren
     · cases hr
   · rw [h] at hr; cases hr; exact ⟨fun _ => hp, fun h => by cases h⟩
   · rw [h] at hr; cases hr; exact ⟨fun _ => hp, fun h => by cases h⟩
+  · rw [h] at hr; cases hr; exact ⟨fun _ => hp, fun h => by cases h⟩
 
 /-- **At most one member, always a candidate.** In every case — return or raise — the parent afterwards is either
     exactly the parent before, or the parent with the child stored in ONE candidate member and nothing else
     altered. -/
-theorem c10_exactly_one_or_nothing (T : Table) (valid : Obj → Bool) (g : Gate) (parent child : Obj)
+theorem c10_exactly_one_or_nothing (T : Table) (valid strOk : Obj → Bool) (g : Gate) (parent child : Obj)
     (hint : Option Nat) (force : Bool) :
-    (add T valid g parent child hint force).parent = parent ∨
-    ∃ m ∈ cands T parent child, StoredIn parent (add T valid g parent child hint force).parent m child := by
-  have hc := add_cases T valid g parent child hint force
+    (add T valid strOk g parent child hint force).parent = parent ∨
+    ∃ m ∈ cands T parent child, StoredIn parent (add T valid strOk g parent child hint force).parent m child := by
+  have hc := add_cases T valid strOk g parent child hint force
   simp only at hc
-  rcases hc with ⟨hp, _⟩ | ⟨m, hm, _, _, hsi, _⟩ | ⟨m, _, _, _, _, hp, _⟩ | ⟨m, _, _, _, _, hp, _⟩
+  rcases hc with ⟨hp, _⟩ | ⟨m, hm, _, _, hsi, _⟩ | ⟨m, _, _, _, _, hp, _⟩ | ⟨m, _, _, _, _, _, _, hp, _⟩ |
+      ⟨m, _, _, _, _, hp, _⟩
   · exact Or.inl hp
   · exact Or.inr ⟨m, hm, hsi⟩
+  · exact Or.inl hp
   · exact Or.inl hp
   · exact Or.inl hp
 
 /-- **No other member is touched** (frame): an attribute that is not the name of a candidate member has the same
     value before and after, whatever the call did; identity and class of the parent never change. -/
-theorem c10_frame (T : Table) (valid : Obj → Bool) (g : Gate) (parent child : Obj) (hint : Option Nat)
+theorem c10_frame (T : Table) (valid strOk : Obj → Bool) (g : Gate) (parent child : Obj) (hint : Option Nat)
     (force : Bool) :
-    (add T valid g parent child hint force).parent.oid = parent.oid ∧
-    (add T valid g parent child hint force).parent.cls = parent.cls ∧
+    (add T valid strOk g parent child hint force).parent.oid = parent.oid ∧
+    (add T valid strOk g parent child hint force).parent.cls = parent.cls ∧
     ∀ n, (∀ m ∈ cands T parent child, m.name ≠ n) →
-      (add T valid g parent child hint force).parent.get n = parent.get n := by
-  rcases c10_exactly_one_or_nothing T valid g parent child hint force with h | ⟨m, hm, h1, h2, h3, _⟩
+      (add T valid strOk g parent child hint force).parent.get n = parent.get n := by
+  rcases c10_exactly_one_or_nothing T valid strOk g parent child hint force with h | ⟨m, hm, h1, h2, h3, _⟩
   · rw [h]; exact ⟨rfl, rfl, fun _ _ => rfl⟩
   · exact ⟨h1, h2, fun n hn => h3 n (fun e => hn m hm e.symm)⟩
 
@@ -284,12 +320,12 @@ theorem c10_cands_spec (T : Table) (parent child : Obj) (m : MemberSpec) :
 /-! ### Histories: what the constructors establish is kept by every `add` -/
 
 /-- `add` keeps the parent well-formed for its class (every member has an attribute; containers hold lists) … -/
-theorem c10_wf_preserved (T : Table) (valid : Obj → Bool) (g : Gate) (parent child : Obj) (hint : Option Nat)
+theorem c10_wf_preserved (T : Table) (valid strOk : Obj → Bool) (g : Gate) (parent child : Obj) (hint : Option Nat)
     (force : Bool) (hnd : (T.memberNames parent.cls).Nodup)
     (hwf : wfFor (T.getMembers parent.cls) parent = true) :
-    wfFor (T.getMembers (add T valid g parent child hint force).parent.cls) (add T valid g parent child hint force).parent
+    wfFor (T.getMembers (add T valid strOk g parent child hint force).parent.cls) (add T valid strOk g parent child hint force).parent
       = true := by
-  rcases c10_exactly_one_or_nothing T valid g parent child hint force with h | ⟨m, hm, h1, h2, h3, h4⟩
+  rcases c10_exactly_one_or_nothing T valid strOk g parent child hint force with h | ⟨m, hm, h1, h2, h3, h4⟩
   · rw [h]; exact hwf
   · rw [h2]
     unfold wfFor at hwf ⊢
@@ -311,19 +347,20 @@ theorem c10_wf_preserved (T : Table) (valid : Obj → Bool) (g : Gate) (parent c
     · rw [h3 x.name hn]; exact hxw
 
 /-- … so from a well-formed parent no call ever fails inside `__add` (`KeyError`, `AttributeError`) … -/
-theorem c10_wf_no_internal_error (T : Table) (valid : Obj → Bool) (g : Gate) (parent child : Obj)
+theorem c10_wf_no_internal_error (T : Table) (valid strOk : Obj → Bool) (g : Gate) (parent child : Obj)
     (hint : Option Nat) (force : Bool) (hwf : wfFor (T.getMembers parent.cls) parent = true) :
-    (add T valid g parent child hint force).result ≠ .error .keyError ∧
-    (add T valid g parent child hint force).result ≠ .error .notAList := by
-  have hc := add_cases T valid g parent child hint force
+    (add T valid strOk g parent child hint force).result ≠ .error .keyError ∧
+    (add T valid strOk g parent child hint force).result ≠ .error .notAList := by
+  have hc := add_cases T valid strOk g parent child hint force
   simp only at hc
   rcases hc with ⟨_, _, h | h | h⟩ | ⟨m, _, _, _, _, _, hres⟩ | ⟨m, _, _, _, _, _, _, hres⟩ |
-      ⟨m, hm, _, hns, hnt, _, _, _⟩
+      ⟨m, _, _, _, _, _, _, _, _, h⟩ | ⟨m, hm, _, hns, hnt, _, _, _⟩
   · rw [h]; exact ⟨by simp, by simp⟩
   · rw [h]; exact ⟨by simp, by simp⟩
   · rw [h]; exact ⟨by simp, by simp⟩
   · rw [hres]; split <;> exact ⟨by simp, by simp⟩
   · rw [hres]; split <;> exact ⟨by simp, by simp⟩
+  · rw [h]; exact ⟨by simp, by simp⟩
   · exfalso
     have hmm : m ∈ T.getMembers parent.cls := ((c10_cands_spec T parent child m).mp hm).1
     unfold wfFor at hwf
@@ -354,15 +391,15 @@ theorem c10_wf_no_internal_error (T : Table) (valid : Obj → Bool) (g : Gate) (
 
 /-- … after ANY sequence of earlier `add` calls (any children, hints, `force`, gates, outcomes): the parent is
     the same object of the same class, still well-formed. -/
-theorem c10_history (T : Table) (valid : Obj → Bool) : ∀ (calls : List Call) (parent : Obj),
+theorem c10_history (T : Table) (valid strOk : Obj → Bool) : ∀ (calls : List Call) (parent : Obj),
     (T.memberNames parent.cls).Nodup → wfFor (T.getMembers parent.cls) parent = true →
-    (runCalls T valid parent calls).1.oid = parent.oid ∧ (runCalls T valid parent calls).1.cls = parent.cls ∧
-    wfFor (T.getMembers parent.cls) (runCalls T valid parent calls).1 = true
+    (runCalls T valid strOk parent calls).1.oid = parent.oid ∧ (runCalls T valid strOk parent calls).1.cls = parent.cls ∧
+    wfFor (T.getMembers parent.cls) (runCalls T valid strOk parent calls).1 = true
   | [], parent, _, hwf => ⟨rfl, rfl, hwf⟩
   | c :: cs, parent, hnd, hwf => by
-    have hf := c10_frame T valid c.gate parent c.child c.hint c.force
-    have hw := c10_wf_preserved T valid c.gate parent c.child c.hint c.force hnd hwf
-    have ih := c10_history T valid cs (add T valid c.gate parent c.child c.hint c.force).parent
+    have hf := c10_frame T valid strOk c.gate parent c.child c.hint c.force
+    have hw := c10_wf_preserved T valid strOk c.gate parent c.child c.hint c.force hnd hwf
+    have ih := c10_history T valid strOk cs (add T valid strOk c.gate parent c.child c.hint c.force).parent
       (by rw [hf.2.1]; exact hnd) hw
     simp only [runCalls]
     rw [hf.2.1] at ih
@@ -372,10 +409,10 @@ theorem c10_history (T : Table) (valid : Obj → Bool) : ∀ (calls : List Call)
 
 /-- `_get_members` returns `list(set(…))`: some permutation of the chain's members. With distinct member names the
     whole outcome of `add` is the same for every permutation. -/
-theorem c10_order_irrelevant (valid : Obj → Bool) (g : Gate) (members members' : List MemberSpec)
+theorem c10_order_irrelevant (valid strOk : Obj → Bool) (g : Gate) (members members' : List MemberSpec)
     (hp : members.Perm members') (hnd : (members.map (·.name)).Nodup) (parent child : Obj) (hint : Option Nat)
     (force : Bool) :
-    addWith valid members g parent child hint force = addWith valid members' g parent child hint force := by
+    addWith valid strOk members g parent child hint force = addWith valid strOk members' g parent child hint force := by
   have hpt : (targets members child.cls).Perm (targets members' child.cls) := hp.filter _
   have := select_perm true hpt (targets_names_nodup child.cls hnd) hint
   simp only [addWith, addCore, this]
@@ -389,15 +426,15 @@ theorem c10_gen_chains_ok : Table.chainsOk Gen.Members.table = true := by decide
 theorem c10_gen_names_nodup : Table.namesNodup Gen.Members.table = true := by decide +kernel
 
 /-- hence, for the shipped bindings, the hash order of `_get_members` cannot influence `add` -/
-theorem c10_gen_order_irrelevant (valid : Obj → Bool) (g : Gate) (r : ClassRow) (hr : r ∈ Gen.Members.table)
+theorem c10_gen_order_irrelevant (valid strOk : Obj → Bool) (g : Gate) (r : ClassRow) (hr : r ∈ Gen.Members.table)
     (members' : List MemberSpec) (hp : (Table.getMembers Gen.Members.table r.name).Perm members')
     (parent child : Obj) (hint : Option Nat) (force : Bool) :
-    addWith valid (Table.getMembers Gen.Members.table r.name) g parent child hint force
-      = addWith valid members' g parent child hint force := by
+    addWith valid strOk (Table.getMembers Gen.Members.table r.name) g parent child hint force
+      = addWith valid strOk members' g parent child hint force := by
   have h := c10_gen_names_nodup
   unfold Table.namesNodup at h
   rw [List.all_eq_true] at h
-  exact c10_order_irrelevant valid g _ _ hp ((nodupB_iff _).mp (h r hr)) parent child hint force
+  exact c10_order_irrelevant valid strOk g _ _ hp ((nodupB_iff _).mp (h r hr)) parent child hint force
 
 /-! ### Known finding `C10:dup-not-refused:xml-loaded` — "equal" children that were loaded from XML
 
@@ -409,20 +446,21 @@ equal and the second one IS stored. Full statement (value equality), the stronge
 /-- FULL statement: a child whose VALUE equals that of an element of the selected container (or any child for an
     occupied single-valued member) is refused when `force` is off -/
 def c10_value_duplicate_refused_full : Prop :=
-  ∀ (T : Table) (valid : Obj → Bool) (g : Gate) (parent child : Obj) (hint : Option Nat) (m : MemberSpec),
+  ∀ (T : Table) (valid strOk : Obj → Bool) (g : Gate) (parent child : Obj) (hint : Option Nat) (m : MemberSpec),
     Selected T parent child hint m → TakenByValue parent child m →
-    (add T valid g parent child hint false).parent = parent
+    (add T valid strOk g parent child hint false).parent = parent
 
 /-- true for every child built programmatically (no lxml element inside it) — and then with the full conclusion of
     `c10_taken_refused` -/
-theorem c10_value_duplicate_refused_partial (T : Table) (valid : Obj → Bool) (g : Gate) (parent child : Obj)
+theorem c10_value_duplicate_refused_partial (T : Table) (valid strOk : Obj → Bool) (g : Gate) (parent child : Obj)
     (hint : Option Nat) (m : MemberSpec) (hprog : child.nodeFree = true)
-    (hs : Selected T parent child hint m) (ht : TakenByValue parent child m) :
-    (add T valid g parent child hint false).parent = parent ∧
-    (add T valid g parent child hint false).warn = some (warnOf m) ∧
-    ((add T valid g parent child hint false).result = .ok child ∨
-     (g.on = true ∧ valid parent = false ∧ (add T valid g parent child hint false).result = .error .invalid)) := by
-  refine c10_taken_refused T valid g parent child hint m hs ?_
+    (hs : Selected T parent child hint m) (ht : TakenByValue parent child m)
+    (hstr : m.container = true → strOk child = true) :
+    (add T valid strOk g parent child hint false).parent = parent ∧
+    (add T valid strOk g parent child hint false).warn = some (warnOf m) ∧
+    ((add T valid strOk g parent child hint false).result = .ok child ∨
+     (g.on = true ∧ valid parent = false ∧ (add T valid strOk g parent child hint false).result = .error .invalid)) := by
+  refine c10_taken_refused_partial T valid strOk g parent child hint m hs ?_ hstr
   unfold TakenByValue at ht; unfold Taken
   cases hc : m.container with
   | true =>
@@ -458,7 +496,7 @@ def gateLoaded : Obj := .mk 100 0 [(10, .none), (11, .none), (12, .list [.obj (l
 -- c10_unique_stores: unique candidate, free slot
 example : cands T0 gate0 (note 2 "n") = [m12] ∧ Storable gate0 (note 2 "n") m12 false :=
   ⟨by decide, ⟨[], rfl, Or.inr rfl⟩⟩
-example : (add T0 (fun _ => true) on gate0 (note 2 "n") none false).parent.get 12 = some (.list [.obj (note 2 "n")]) :=
+example : (add T0 (fun _ => true) (fun _ => true) on gate0 (note 2 "n") none false).parent.get 12 = some (.list [.obj (note 2 "n")]) :=
   rfl
 -- c10_hint_selects / c10_hint_selects_first: two candidates, the hint names the second
 example : 2 ≤ (cands T0 gate0 (rate 1 "a")).length ∧ (T0.memberNames gate0.cls).Nodup ∧
@@ -469,20 +507,20 @@ example : 2 ≤ (cands T0 gate0 (rate 1 "a")).length ∧ (T0.memberNames gate0.c
 example : cands T0 gate0 gate0 = [] := by decide
 -- c10_ambiguous_raises / c10_bad_hint_raises: hint 12 is a member name of the parent, but not a candidate
 example : 2 ≤ (cands T0 gate0 (rate 1 "a")).length ∧ ∀ m ∈ cands T0 gate0 (rate 1 "a"), m.name ≠ 12 := by decide
--- c10_taken_refused / c10_taken_forced: occupied single-valued member (by hint), equal note in the container
+-- c10_taken_refused_partial / c10_taken_forced / c10_taken_str_raises: occupied single-valued member (by hint), equal note in the container
 example : Selected T0 gate1 (rate 5 "b") (some 10) m10 ∧ Taken gate1 (rate 5 "b") m10 :=
   ⟨by unfold Selected; rfl, ⟨_, rfl, rfl⟩⟩
 example : Selected T0 gate1 (note 6 "n") none m12 ∧ Taken gate1 (note 6 "n") m12 :=
   ⟨by unfold Selected; rfl, ⟨_, rfl, by decide⟩⟩
 -- c10_returns_stored / c10_raise_unchanged: both kinds of result occur, incl. the ValueError after a placement
-example : (add T0 (fun _ => true) on gate0 (note 2 "n") none false).result = .ok (note 2 "n") ∧
-    (add T0 (fun _ => true) on gate0 (note 2 "n") none false).warn = none := ⟨rfl, rfl⟩
-example : (add T0 (fun _ => true) on gate1 (note 6 "n") none false).result = .ok (note 6 "n") ∧
-    (add T0 (fun _ => true) on gate1 (note 6 "n") none false).warn = some .duplicate := ⟨rfl, rfl⟩
-example : (add T0 (fun _ => false) on gate0 (note 2 "n") none false).result = .error .invalid ∧
-    (add T0 (fun _ => false) on gate0 (note 2 "n") none false).parent.get 12 = some (.list [.obj (note 2 "n")]) :=
+example : (add T0 (fun _ => true) (fun _ => true) on gate0 (note 2 "n") none false).result = .ok (note 2 "n") ∧
+    (add T0 (fun _ => true) (fun _ => true) on gate0 (note 2 "n") none false).warn = none := ⟨rfl, rfl⟩
+example : (add T0 (fun _ => true) (fun _ => true) on gate1 (note 6 "n") none false).result = .ok (note 6 "n") ∧
+    (add T0 (fun _ => true) (fun _ => true) on gate1 (note 6 "n") none false).warn = some .duplicate := ⟨rfl, rfl⟩
+example : (add T0 (fun _ => false) (fun _ => true) on gate0 (note 2 "n") none false).result = .error .invalid ∧
+    (add T0 (fun _ => false) (fun _ => true) on gate0 (note 2 "n") none false).parent.get 12 = some (.list [.obj (note 2 "n")]) :=
   ⟨rfl, rfl⟩
-example : (add T0 (fun _ => true) on gate0 (rate 1 "a") none false).result = .error .ambiguous := rfl
+example : (add T0 (fun _ => true) (fun _ => true) on gate0 (rate 1 "a") none false).result = .error .ambiguous := rfl
 -- c10_wf_preserved / c10_history / c10_wf_no_internal_error: a derived class, inherited members included
 example : (T0.memberNames 3).Nodup ∧ T0.getMembers 3 = [m13, m10, m11, m12] ∧
     wfFor (T0.getMembers 3) (.mk 7 3 [(10, .none), (11, .none), (12, .list []), (13, .list [])]) = true := by decide
@@ -493,11 +531,21 @@ example : (note 6 "n").nodeFree = true ∧ TakenByValue gate1 (note 6 "n") m12 :
 
 end Ex
 
+/-- WITNESS (`C10:dup-warning-raises`): an equal note is in the container, `force` is off, `str(child)` raises:
+    no warning is issued and the call raises instead of returning the child. -/
+theorem c10_taken_refused_witness : ¬ c10_taken_refused_full := by
+  intro h
+  have h1 := (h Ex.T0 (fun _ => true) (fun _ => false) Ex.off Ex.gate1 (Ex.note 6 "n") none Ex.m12
+    (by unfold Selected; rfl) ⟨_, rfl, by decide⟩).2.1
+  rw [c10_taken_str_raises Ex.T0 (fun _ => true) (fun _ => false) Ex.off Ex.gate1 (Ex.note 6 "n") none Ex.m12
+    (by unfold Selected; rfl) ⟨_, rfl, by decide⟩ rfl rfl] at h1
+  cases h1
+
 /-- WITNESS: two notes with identical content, each loaded from XML (distinct lxml elements 7 and 8): the second
     one is value-equal to the stored one, `force` is off — and it is stored all the same. -/
 theorem c10_value_duplicate_refused_witness : ¬ c10_value_duplicate_refused_full := by
   intro h
-  have h1 := h Ex.T0 (fun _ => true) Ex.off Ex.gateLoaded (Ex.loadedNote 3 8 "n") none Ex.m12
+  have h1 := h Ex.T0 (fun _ => true) (fun _ => true) Ex.off Ex.gateLoaded (Ex.loadedNote 3 8 "n") none Ex.m12
     (by unfold Selected; rfl) ⟨_, rfl, by decide⟩
   -- the container now has two elements
   have h2 := congrArg (fun o => match Obj.get o 12 with | some (.list l) => l.length | _ => 0) h1
